@@ -306,7 +306,8 @@ def _default_cause(k1, k2, c1, c2, tol):
 def _w_c09_decorators(task):
     """C09 through each of the twelve decorator classes with a rounding tolerance: float arguments passed positionally
     and by keyword (the key pipeline -- rounding, ignore, keymap -- is copied into every wrapper)"""
-    _, tier, mod, alg, tol, deep, defaults = task
+    _, tier, mod, alg, tol, deep, defaults = task[:7]
+    ignore = task[7] if len(task) > 7 else None     # (an ignore specification must not separate two spellings of one binding either)
     import klepto
     import klepto.safe
     import klepto.keymaps as km
@@ -320,6 +321,8 @@ def _w_c09_decorators(task):
     f = ns['f']
     m = klepto.safe if mod == 'safe' else klepto
     kw = {'keymap': km.stringmap(flat=False), 'tol': tol, 'deep': deep}
+    if ignore is not None:
+        kw['ignore'] = tuple(ignore) if isinstance(ignore, (list, tuple)) else ignore
     if alg not in ('no', 'inf'):
         kw['maxsize'] = 100000
     W = getattr(m, alg + '_cache')(**kw)(f)
@@ -335,7 +338,7 @@ def _w_c09_decorators(task):
             key = W.key(*a, **dict(kwi))
         except Exception as e:
             res['violations'].append(_v('C09', {'rule': 'key-raises', 'exc': type(e).__name__, 'form': 'decorator-sweep'},
-                                        '%s.%s_cache(tol=%r, deep=%r): key(%r, %r) raised %r' % (mod, alg, tol, deep, a, kwi, e),
+                                        '%s.%s_cache(tol=%r, deep=%r, ignore=%r): key(%r, %r) raised %r' % (mod, alg, tol, deep, ignore, a, kwi, e),
                                         {'task': list(task), 'calls': [[a, kwi]]}))
             continue
         g = groups.setdefault(typed_repr(b), (freeze(key), (a, kwi), []))     # (3 and 3.0 are different bindings here)
@@ -344,8 +347,8 @@ def _w_c09_decorators(task):
             res['violations'].append(_v('C09', {'rule': 'equivalent-calls-different-keys', 'keymap': 'stringmap(flat=False)',
                                                 'cause': _default_cause(g[0], freeze(key), g[1], (a, kwi), tol),
                                                 'form': 'decorator-sweep %s.%s_cache' % (mod, alg)},
-                                        '%s.%s_cache(tol=%r, deep=%r): calls %r and %r bind identically (%r) but get keys %r / %r' % (
-                                            mod, alg, tol, deep, g[1], (a, kwi), b, g[0], freeze(key)),
+                                        '%s.%s_cache(tol=%r, deep=%r, ignore=%r): calls %r and %r bind identically (%r) but get keys %r / %r' % (
+                                            mod, alg, tol, deep, ignore, g[1], (a, kwi), b, g[0], freeze(key)),
                                         {'task': list(task), 'calls': [g[1], (a, kwi)]}))
     res['nontrivial'] = sum(1 for g in groups.values() if len(g[2]) >= 2)
     res['counts']['programs'] += 1
@@ -360,11 +363,12 @@ def _w_c09_decorators(task):
         if evals != distinct:
             res['violations'].append(_v('C09', {'rule': 'second-spelling-recomputed', 'keymap': 'stringmap(flat=False)', 'cause': 'other',
                                                 'form': 'decorator-sweep %s.%s_cache' % (mod, alg)},
-                                        '%s.%s_cache(tol=%r, deep=%r): %d distinct keys but %d evaluations' % (mod, alg, tol, deep, distinct, evals),
+                                        '%s.%s_cache(tol=%r, deep=%r, ignore=%r): %d distinct keys but %d evaluations' % (mod, alg, tol, deep, ignore, distinct, evals),
                                         {'task': list(task), 'calls': []}))
     res['counts'] = dict(res['counts'])
     res['outcomes'] = []
-    res['config_summary'] = '%s.%s_cache tol=%r deep=%r defaults=%s [decorator sweep]' % (mod, alg, tol, deep, defaults)
+    res['config_summary'] = '%s.%s_cache tol=%r deep=%r defaults=%s%s [decorator sweep]' % (
+        mod, alg, tol, deep, defaults, '' if ignore is None else ' ignore=%r' % (ignore,))
     return res
 
 
@@ -439,6 +443,8 @@ def run_c0910(prop, tier, seed):
                     for deep in (False, True):
                         for defaults in ('round', 'unround'):
                             tasks.append(('C09-decorators', tier, mod, alg, tol, deep, defaults))
+                for ign in ('k', ('b',), ('k', '**'), ('b', '*'), ('a', 'k')):
+                    tasks.append(('C09-decorators', tier, mod, alg, None, False, 'round', ign))
     if prop == 'C10':
         for kmname, mk, preserving in callmc.keymaps(tier):
             if preserving:
